@@ -139,7 +139,7 @@ func (c *Client) Send(b []byte) error {
 }
 
 // collect reads until the tagged response for tag.
-func (c *Client) collect(tag string) Result {
+func (c *Client) Collect(tag string) Result {
 	res := Result{Tag: tag}
 	for {
 		r, err := c.ReadResp()
@@ -165,7 +165,7 @@ func (c *Client) Cmd(cmd string) Result {
 	if err := c.Send([]byte(tag + " " + cmd + "\r\n")); err != nil {
 		return Result{Tag: tag, Err: err}
 	}
-	return c.collect(tag)
+	return c.Collect(tag)
 }
 
 // CmdLit sends a command that ends with a synchronising literal, e.g. prefix="APPEND INBOX (\Seen)".
@@ -198,7 +198,7 @@ func (c *Client) CmdLit(prefix string, lit []byte, suffix string) Result {
 		res.Err = err
 		return res
 	}
-	r2 := c.collect(tag)
+	r2 := c.Collect(tag)
 	r2.Untagged = append(res.Untagged, r2.Untagged...)
 	return r2
 }
